@@ -549,6 +549,45 @@ func c12Overlap(r *Runner, del Op, park int, during []Op, labels map[string]bool
 				}
 			}
 		}
+		// the process could die right here, with the cascade still pending and the window ops acknowledged: a
+		// copy of the data directory is recovered on the side. The next start finishes the interrupted cascade:
+		// every edge that was live at the node when it was deleted and that nobody linked again must come back
+		// closed, whatever was linked, unlinked or re-added inside the window.
+		if !released {
+			idir, icleanup := verifkit.TempDir("c12win")
+			_ = r.E.AOF.Flush()
+			img := filepath.Join(idir, "img")
+			if err := c02CopyDir(r.Dir, img); err == nil {
+				labels["crash-image-inside-an-overlapped-cascade-window"] = true
+				e2, oerr := engine.Open(engineOpts(img))
+				if oerr != nil {
+					icleanup()
+					return fmt.Sprintf("VDelete(%s), cascade held at %s, ops %v acknowledged, then a crash: Open of the copied directory failed: %v", x, at, ran, oerr), used
+				}
+				var bad string
+				for ed := range inS {
+					if relinked[key(ed.Src, ed.Rel, ed.Tgt)] {
+						continue
+					}
+					d := int64(-1)
+					e2.DB.IterateGraphEdges(func(source, target, rl string, weight float32, props []byte, cTime, dTime int64) {
+						if source == ed.Src && target == ed.Tgt && rl == ed.Rel && cTime == ed.C {
+							d = dTime
+						}
+					})
+					if d == 0 {
+						bad = fmt.Sprintf("VDelete(%s), cascade held at %s, ops %v acknowledged, then a crash: after recovery the edge %s-%s->%s, which was live when %s was deleted and which nobody linked again, is live", x, at, ran, ed.Src, ed.Rel, ed.Tgt, x)
+						break
+					}
+				}
+				e2.Close()
+				if bad != "" {
+					icleanup()
+					return bad, used
+				}
+			}
+			icleanup()
+		}
 		doRelease()
 	} else {
 		labels["cascade-ended-before-the-hold-point"] = true
